@@ -181,7 +181,7 @@ func main() {
 			"literal, a function with a list default) and two generated packages of 1-5 actions each on what they import (alias + index assignment, loops over nested " +
 			"lists, sorted/reversed of inner lists, +, +=, dict members, direct assignment that must fail), each followed by reads of everything; run on the real " +
 			"interpreter as B alone, A then B, B then A, and concurrently. distinct = distinct scenario texts; non-trivial = package A contains a write")
-		n := c.Scale(60, 2500)
+		n := c.Scale(45, 2500)
 		for i := 0; i < n; i++ {
 			r := c.Rng.Fork()
 			defs := genDefs(r)
